@@ -50,8 +50,10 @@ impl<'a, 'b> PwVisitor for HV<'a, 'b> {
             let direct = lib!(pw.evaluate(x));
             let i = select(ends_b, x);
             let model = lib!(pw.segments[i].poly.evaluate(x));
-            self.ctx.comparisons += 2;
-            if !same_bits(got, direct) || !same_bits(got, model) {
+            self.ctx.comparisons += 1;
+            // the property relates the evaluator to DIRECT evaluation only; which segment direct evaluation picks is
+            // C02's business (the model's answer is shown in the message for orientation)
+            if !same_bits(got, direct) {
                 let hist: Vec<String> = self.xs[..=k].iter().map(|v| format!("{v:e}")).collect();
                 fail!(
                     "query #{k} x={}: PiecewiseEvaluator returned {}, direct Piecewise::evaluate {}, selection model (segment #{i}) {}{}\n  ends = {:?}\n  history so far = [{}]",
